@@ -273,6 +273,12 @@ impl Family for C04Handlers {
       p = Json::obj(vec![("op", Json::str(*rng.pick(&["map_id", "tap", "filter"]))), ("a", Json::Int(1)), ("in", p)]);
     }
     p = Json::obj(vec![("op", Json::str(op)), ("a", Json::Int(a)), ("in", p)]);
+    // the same retry(n) observable value resubscribed by an outer retry: every outer attempt
+    // gets the inner one's full budget again
+    let nested_retry = op == "retry" && a >= 1 && rng.below(3) == 0;
+    if nested_retry {
+      p = Json::obj(vec![("op", Json::str("retry")), ("a", Json::Int(rng.range(1, 3) as i64)), ("in", p)]);
+    }
     if rng.below(4) == 0 {
       p = Json::obj(vec![("op", Json::str("map_id")), ("a", Json::Int(0)), ("in", p)]);
     }
@@ -330,6 +336,11 @@ impl Family for C04Handlers {
       if HANDLERS.contains(&op) {
         // below: only map_id / tap / filter(always true for a=1: even?) over src 0
         let mut b = n.get("in")?;
+        // an outer retry directly over an inner retry: the inner one is returned, the outer
+        // budget is read separately
+        if op == "retry" && b.get("op").and_then(|x| x.as_str()) == Some("retry") && b.i("a") >= 1 && n.i("a") >= 1 {
+          return handler(b);
+        }
         let mut filtered = false;
         loop {
           if b.get("src").and_then(|x| x.as_i64()) == Some(0) {
@@ -354,6 +365,25 @@ impl Family for C04Handlers {
     };
     let op = h.s("op");
     let a = h.i("a");
+    // budget of an outer retry directly above the handler (0 = there is none)
+    let outer_budget: i64 = {
+      fn find_outer(n: &Json) -> i64 {
+        match n.get("op").and_then(|x| x.as_str()) {
+          Some("retry") => {
+            let inner = n.get("in");
+            if inner.and_then(|i| i.get("op")).and_then(|x| x.as_str()) == Some("retry") {
+              n.i("a")
+            } else {
+              0
+            }
+          }
+          Some("map_id") => n.get("in").map_or(0, find_outer),
+          _ => 0,
+        }
+      }
+      find_outer(&spec.pipeline)
+    };
+    let mut outer_attempt = 1i64;
     let mut cfg = cfg;
     cfg.step_budget = 40_000;
     let r = run_seq(&spec, cfg);
@@ -423,6 +453,14 @@ impl Family for C04Handlers {
             let again = if op == "retry" { a == 0 || (attempt as i64) < a } else { pred_allows(a, *id) };
             if again {
               attempt += 1;
+              subs += 1;
+              if !is_subject {
+                pos = 0;
+              }
+            } else if outer_budget >= 1 && outer_attempt < outer_budget {
+              // the outer retry resubscribes the inner retry observable: a fresh inner budget
+              outer_attempt += 1;
+              attempt = 1;
               subs += 1;
               if !is_subject {
                 pos = 0;
